@@ -20,6 +20,27 @@ def flag_fact(E, path, flag):
     return None
 
 
+def _has_flag_twin(paths, path, flag):
+    """is there another returning path with the same facts except the opposite value of the flag and the same
+    returned value?  Then the outcome does not depend on the flag although the path has read it."""
+    def split(p):
+        rest, fv = {}, None
+        for k, v in p.facts.items():
+            if isinstance(k, tuple) and k and k[0] == 'init' and loc_endswith(k[1], flag) and v[0] == 'eq':
+                fv = v[1]
+            else:
+                rest[k] = v
+        return rest, fv
+    rest, fv = split(path)
+    for q in paths:
+        if q is path or q.exit != 'return':
+            continue
+        r2, f2 = split(q)
+        if f2 is not None and f2 != fv and r2 == rest and q.ret == path.ret:
+            return True
+    return False
+
+
 def is_param_value(v):
     """does the value originate from the function's own parameter or own node (a NEW value)?"""
     def walk(x, d=0):
@@ -199,7 +220,10 @@ def run(C, R):
                         delivers = from_token(path.ret) or contains(path.ret, ('init', (('P', 'self'), 'value'))) \
                             or any(e['k'] == 'call' and e['name'] in ('pop', 'clone') and contains(path.ret, e['ret'])
                                    for e in path.events if e.get('ret'))
-                        if delivers and ff is not None:
+                        if delivers and ff is not None and _has_flag_twin(paths, path, flag):
+                            # the flag was looked at (eagerly), but the same delivery happens for either value
+                            R.ok('C11.R4', '%s|delivery for either flag value|%s' % (m['path'], path_cond(E, path)))
+                        elif delivers and ff is not None:
                             R.fail('C11.R4', [m['path'], 'delivery-depends-on-flag'],
                                    '%s delivers a value only after looking at %s: values accepted before close() '
                                    'must still be received [%s]' % (m['path'], flag, path_cond(E, path)),
